@@ -220,6 +220,15 @@ fn liar_answer(req: &Req, t: &Truth) -> Vec<RepairResponse> {
                     kernel::fault("liar_shred_of_other_block");
                     out.push(RepairResponse::Shred(rt, t.other.shreds[0][i].as_shred().clone()));
                 }
+                5 if kernel::choose(L, 2) == 1 => {
+                    // the data/coding tag is covered by neither signature nor proof: flip it
+                    kernel::fault("liar_flipped_type_tag");
+                    let mut b = wire::shred_bytes(&genuine);
+                    b[wire::SHRED_OFF_TAG] ^= 1;
+                    if let Some(s) = wire::decode_shred(&b) {
+                        out.push(RepairResponse::Shred(rt, s));
+                    }
+                }
                 5 => {
                     // byte-level tampering of the genuine shred
                     kernel::fault("liar_tampered_shred");
@@ -440,7 +449,23 @@ pub fn run(prop: &str, max_slices: usize) -> WorldOutcome {
                     // requester's blockstore events
                     while let Ok(ev) = bs_rx.try_recv() {
                         match &ev {
-                            BlockstoreEvent::InvalidBlock(s) => kernel::event(&format!("requester InvalidBlock s{}", s.inner())),
+                            BlockstoreEvent::InvalidBlock(s) => {
+                                kernel::event(&format!("requester InvalidBlock s{}", s.inner()));
+                                // everything the leader signed in this run belongs to one well-formed block,
+                                // unless the run itself made the leader equivocate
+                                let leader_signed_more = byz_leader
+                                    || dis_prefix
+                                    || kernel::with(|c| ["liar_other_block", "liar_shred_of_other_block", "liar_alt_signing_last_flag"].iter().any(|f| c.faults.contains_key(f)));
+                                if !leader_signed_more {
+                                    for p in ["C14", "C12"] {
+                                        kernel::violation(
+                                            p,
+                                            "correct-leader-reported-during-repair",
+                                            format!("the requester reported the correct leader of slot {} as misbehaving although every shred the leader signed belongs to the one block being repaired (peers only relayed, dropped or altered unsigned fields)", s.inner()),
+                                        );
+                                    }
+                                }
+                            }
                             BlockstoreEvent::FirstShred(s) => kernel::event(&format!("requester FirstShred s{}", s.inner())),
                             BlockstoreEvent::Block { .. } => {}
                         }
